@@ -1041,7 +1041,13 @@ def above(x):
     return x
 
 
+@icontract.require(lambda read_assigned, assigned, dict: [(w := x) for x in read_assigned] and w + assigned + dict < 0)
+def named_like_helpers(read_assigned, assigned, dict):
+    return read_assigned
+
+
 make_with_unbound_closure_variable()
+attempt("arguments-named-like-the-helpers-of-the-recomputation", lambda: named_like_helpers([1, 2], 3, 4))
 attempt("keyword-only-defaults-named-like-builtins", lambda: clamped(50))
 attempt("keyword-only-default-named-like-a-global", lambda: above(1))
 attempt("callee-equal-to-everything-over-a-generator", lambda: g([1, 2]))
@@ -1050,7 +1056,8 @@ attempt("condition-given-as-a-callable-object", lambda: with_callable_object(50)
 attempt("satisfied-partial-and-callable-object", lambda: (with_partial(5), with_callable_object(5)))
 '''
 
-CORNER_TEXTS = {"keyword-only-defaults-named-like-builtins": "min <= value <= max", "keyword-only-default-named-like-a-global": "lo is not None and x >= lo",
+CORNER_TEXTS = {"arguments-named-like-the-helpers-of-the-recomputation": "[(w := x) for x in read_assigned] and w + assigned + dict < 0",
+                "keyword-only-defaults-named-like-builtins": "min <= value <= max", "keyword-only-default-named-like-a-global": "lo is not None and x >= lo",
                 "unbound-closure-variable-not-evaluated": "x > 0 and helper(x)", "closure-variable-bound-later": "x > 0 and helper(x)",
                 "callee-equal-to-everything-over-a-generator": "agreeable(x > 0 for x in xs)",
                 # (a condition which is no function has no source text of its own: only the kind of the error is demanded)
